@@ -538,6 +538,11 @@ class Interp(Engine):
             return SBool(self.as_int(a) == self.as_int(b))
         if not isinstance(a, Sym) and not isinstance(b, Sym):
             return a == b
+        hook = self.hooks.get('equal')
+        if hook:
+            r = hook(self, a, b)
+            if r is not NotImplemented:
+                return r
         raise OutOfSubset('equality of %r and %r' % (a, b))
 
     def format_term(self, fmt, b):
